@@ -44,6 +44,11 @@
 #include <cppcms/session_interface.h>
 #include <cppcms/session_pool.h>
 #include <cppcms/cache_interface.h>
+#include <cppcms/session_api.h>
+#include <cppcms/cppcms_error.h>
+#include <time.h>
+#include <cppcms/http_cookie.h>
+#include <cppcms/util.h>
 #endif
 #include "hexio.h"
 using namespace hx;
@@ -167,6 +172,31 @@ template<class P> struct PtrIO {
 	static bool eq(P const &a,P const &b){ if(!a.get() || !b.get()) return !a.get() && !b.get(); return IO<T>::eq(*a,*b); }
 };
 template<class T> struct IO<booster::shared_ptr<T> > : PtrIO<booster::shared_ptr<T> > {};
+// pointers without an element_type typedef
+template<class P,class T> struct PtrIO2 {
+	static std::string spec(){ return "O"+IO<T>::spec(); }
+	static void print(P const &v,std::string &o){ if(!v.get()) o+="N"; else { o+="&"; IO<T>::print(*v,o); } }
+	static bool build(char const *&p,P &v){
+		if(eat(p,'N')) { v.reset(); return true; }
+		if(!eat(p,'&')) return false;
+		v.reset(new T()); return IO<T>::build(p,*v); }
+	static bool eq(P const &a,P const &b){ if(!a.get() || !b.get()) return !a.get() && !b.get(); return IO<T>::eq(*a,*b); }
+};
+template<class T> struct IO<booster::hold_ptr<T> > : PtrIO2<booster::hold_ptr<T>,T> {};
+template<class T> struct IO<booster::clone_ptr<T> > : PtrIO2<booster::clone_ptr<T>,T> {};
+template<class T> struct IO<std::unique_ptr<T> > : PtrIO2<std::unique_ptr<T>,T> {};
+// a clonable user class holding one string (wire format = the string)
+struct cl_str : public cppcms::serializable {
+	std::string s;
+	void serialize(cppcms::archive &a){ a & s; }
+	cl_str *clone() const { return new cl_str(*this); }
+};
+template<> struct IO<cl_str> {
+	static std::string spec(){ return "s"; }
+	static void print(cl_str const &v,std::string &o){ IO<std::string>::print(v.s,o); }
+	static bool build(char const *&p,cl_str &v){ return IO<std::string>::build(p,v.s); }
+	static bool eq(cl_str const &a,cl_str const &b){ return a.s==b.s; }
+};
 template<class T> struct IO<booster::copy_ptr<T> > {
 	typedef booster::copy_ptr<T> P;
 	static std::string spec(){ return "O"+IO<T>::spec(); }
@@ -318,8 +348,9 @@ template<class T> static std::string do_rt(std::string const &text)
 
 #ifdef C19_WITH_SERVICE
 struct null_adapter : public cppcms::session_interface_cookie_adapter {
-	virtual void set_cookie(cppcms::http::cookie const &){}
-	virtual std::string get_session_cookie(std::string const &){ return std::string(); }
+	std::string name,value;   // the session cookie as the browser would hold it
+	virtual void set_cookie(cppcms::http::cookie const &c){ if(c.name()==name) value=c.value(); }
+	virtual std::string get_session_cookie(std::string const &){ return cppcms::util::urldecode(value); }
 	virtual std::set<std::string> get_cookie_names(){ return std::set<std::string>(); }
 };
 static cppcms::service *the_service;
@@ -351,7 +382,22 @@ template<class T> static typename std::enable_if<std::is_base_of<cppcms::seriali
 		T back=T();
 		s.fetch_data("obj",back);
 		std::string raw=s.get("obj");
-		r+="S="+hex(raw)+" eq="+(IO<T>::eq(orig,back)?"1":"0")+" v="; IO<T>::print(back,r);
+		std::string eq=IO<T>::eq(orig,back)?"1":"0";
+		// ... and through save() -> signed client-side cookie -> load() of the next request's session object
+		ad.name=s.session_cookie_name();
+		s.save();
+		if(ad.value.empty()) eq+=":no-cookie";
+		else {
+			null_adapter ad2; ad2.name=ad.name; ad2.value=ad.value;
+			cppcms::session_interface s2(*the_pool,ad2);
+			s2.load();
+			T back2=T();
+			size_t jl=jlog.size();
+			s2.fetch_data("obj",back2);
+			jlog.resize(jl,std::make_pair(std::string(),std::string()));
+			if(!IO<T>::eq(orig,back2) || s2.get("obj")!=raw) eq+=":cookie-differs";
+		}
+		r+="S="+hex(raw)+" eq="+eq+" v="; IO<T>::print(back,r);
 	} catch(std::exception const &e) { r+="S-threw:"+status_of(e); }
 	try {
 		cppcms::cache_interface c(*the_service);
@@ -404,6 +450,102 @@ template<class T> static std::string do_sc(std::string const &){ return "NO-SERV
 template<class T> static std::string do_scl(std::string const &){ return "NO-SERVICE"; }
 #endif
 
+// ---------------------------------------------------------------- session map format (session_interface::save_data/load_data)
+//   sd <hexbytes> j        a storage backend hands these bytes to session_interface::load()
+//   ss <entries> j         entries [k:e:v,...] (hex key, exposed 0/1, hex value; "-" = empty, "*N" = N bytes 'x'): set/expose them on a
+//                          new session, save() through the backend, load() them in the session object of the next request
+#ifdef C19_WITH_SERVICE
+static std::string g_store; static bool g_has;
+struct mem_api : public cppcms::session_api {
+	virtual void save(cppcms::session_interface &,std::string const &data,time_t,bool,bool){ g_store=data; g_has=true; }
+	virtual bool load(cppcms::session_interface &,std::string &data,time_t &timeout){ if(!g_has) return false; data=g_store; timeout=time(0)+3600; return true; }
+	virtual void clear(cppcms::session_interface &){ g_has=false; g_store.clear(); }
+	virtual bool is_blocking(){ return false; }
+};
+struct mem_factory : public cppcms::session_api_factory {
+	virtual bool requires_gc(){ return false; }
+	virtual void gc(){}
+	virtual booster::shared_ptr<cppcms::session_api> get(){ return booster::shared_ptr<cppcms::session_api>(new mem_api()); }
+};
+static cppcms::session_pool *mem_pool;
+static void make_mem_pool()
+{
+	if(mem_pool) return;
+	cppcms::json::value cfg;
+	cfg["session"]["location"]="none";
+	mem_pool=new cppcms::session_pool(cfg);
+	mem_pool->backend(std::unique_ptr<cppcms::session_api_factory>(new mem_factory()));
+	mem_pool->init();
+}
+static std::string sess_status(std::exception const &e)
+{
+	char const *w=e.what();
+	if(strstr(w,"violation -> pack")) return "err:pack";
+	if(strstr(w,"violation data")) return "err:data";
+	if(strstr(w,"key too long")) return "err:keylong";
+	if(strstr(w,"value too long")) return "err:vallong";
+	std::string s="exc:"; s+=typeid(e).name(); return s;
+}
+static std::string sess_print(cppcms::session_interface &s)
+{
+	std::set<std::string> ks=s.key_set();
+	std::string r="[";
+	for(std::set<std::string>::const_iterator i=ks.begin();i!=ks.end();++i) {
+		if(i!=ks.begin()) r+=",";
+		r+=hex(*i)+":"+(s.is_exposed(*i)?"1":"0")+":"+hex(s.get(*i));
+	}
+	return r+"]";
+}
+static std::string do_sd(std::string const &bytes)
+{
+	make_mem_pool();
+	g_store=bytes; g_has=true;
+	null_adapter ad;
+	cppcms::session_interface s(*mem_pool,ad);
+	try { s.load(); }
+	catch(std::exception const &e) { return sess_status(e); }
+	catch(...) { return "exc:unknown"; }
+	return "ok "+sess_print(s);
+}
+static std::string expand(std::string const &t){ if(!t.empty() && t[0]=='*') return std::string(strtoul(t.c_str()+1,0,10),'x'); return unhex(t); }
+static std::string do_ss(std::string const &text)
+{
+	make_mem_pool();
+	g_store.clear(); g_has=false;
+	std::string r;
+	try {
+		null_adapter ad; ad.name="none";
+		cppcms::session_interface s(*mem_pool,ad);
+		s.load();
+		std::string body=text.substr(1,text.size()-2);     // [ ... ]
+		size_t pos=0;
+		while(pos<body.size()) {
+			size_t e=body.find(',',pos); if(e==std::string::npos) e=body.size();
+			std::string item=body.substr(pos,e-pos); pos=e+1;
+			size_t c1=item.find(':'),c2=item.rfind(':');
+			if(c1==std::string::npos || c2==c1) return "BAD-VALUE";
+			std::string k=expand(item.substr(0,c1)),v=expand(item.substr(c2+1));
+			s.set(k,v);
+			s.expose(k,item[c1+1]=='1');
+		}
+		std::string want=sess_print(s);
+		s.save();
+		r=std::string("D=")+(g_has?hex(g_store):std::string("none"));
+		null_adapter ad2;
+		cppcms::session_interface s2(*mem_pool,ad2);
+		s2.load();
+		std::string got=sess_print(s2);
+		r+=" ok "+got+" eq="+(got==want?"1":"0");
+	}
+	catch(std::exception const &e) { return sess_status(e); }
+	catch(...) { return "exc:unknown"; }
+	return r;
+}
+#else
+static std::string do_sd(std::string const &){ return "NO-SERVICE"; }
+static std::string do_ss(std::string const &){ return "NO-SERVICE"; }
+#endif
+
 struct entry { std::string spec; std::string (*ld)(std::string const &); std::string (*rt)(std::string const &); std::string (*sc)(std::string const &); std::string (*scl)(std::string const &); };
 static std::vector<entry> table;
 template<class T> static void reg(){ entry e; e.spec=IO<T>::spec(); e.ld=&do_ld<T>; e.rt=&do_rt<T>; e.sc=&do_sc<T>; e.scl=&do_scl<T>; table.push_back(e); }
@@ -441,6 +583,11 @@ static void fill_table()
 	reg<booster::copy_ptr<std::list<long long> > >();                        // 27 OLp8
 	reg<std::vector<std::map<short,booster::shared_ptr<str> > > >();         // 28 LMp2Os
 	reg<std::list<std::vector<float> > >();                                  // 29 Lv4
+	reg<booster::hold_ptr<str> >();                                          // 30 Os
+	reg<std::unique_ptr<std::vector<int> > >();                              // 31 Ov4
+	reg<booster::clone_ptr<cl_str> >();                                      // 32 Os
+	reg<std::vector<booster::copy_ptr<std::pair<short,str> > > >();          // 33 LOPp2s
+	reg<cl_str>();                                                           // 34 s (serializable: session/cache)
 }
 
 int main()
@@ -451,7 +598,9 @@ int main()
 		std::vector<std::string> v=split(line);
 		std::string out;
 		jlog.clear();
-		if(v.size()==1 && v[0]=="types") {
+		if(v.size()==3 && v[0]=="sd") out="sd "+do_sd(unhex(v[1]));
+		else if(v.size()==3 && v[0]=="ss") out="ss "+do_ss(v[1]);
+		else if(v.size()==1 && v[0]=="types") {
 			out="types";
 			for(size_t i=0;i<table.size();i++) out+=" "+itos(i)+"="+table[i].spec;
 		}
